@@ -171,10 +171,25 @@ func newEnv(b *runner.Batch, n int, tlds []string) (*env, error) {
 		return nil, err
 	}
 	e.nns, e.nnsID = d.Hash, d.ID
+	dump := w.Dump(d.ID)
 	for _, t := range tlds {
 		e.m.roots[t] = true
 		e.m.names[t] = &nameSt{exp: now + 10*365*24*3600*1000}
 		e.m.serial[t] = now
+		// the SOA record the deployment wrote for the TLD, as stored (a resolve of type SOA that reaches the TLD through
+		// an alias returns it)
+		for _, v := range dump {
+			if !bytes.Contains(v, []byte(t+" ops@nspcc.io ")) {
+				continue
+			}
+			if it, err := stackitem.Deserialize(v); err == nil {
+				if f, ok := it.Value().([]stackitem.Item); ok && len(f) >= 3 {
+					if data, err := f[2].TryBytes(); err == nil && strings.HasPrefix(string(data), t+" ops@nspcc.io ") {
+						e.m.recs[rkey(t, t, tSOA)] = []string{string(data)}
+					}
+				}
+			}
+		}
 	}
 	for i := 0; i < 3; i++ {
 		s := world.Single(world.Key(b.Seed, b.Index, "nnsuser", i))
